@@ -1,5 +1,111 @@
+"""C18 - names shown are Darwin's and do not depend on the host: the host-independence schema over all decoders
+(decoder_checks.an_C18), the table lemmas (the repository's errno / signal / address-family / socket-type tables carry Darwin's
+numbering, spec/darwin.py) and the named-parameter schema (a parameter Darwin names is looked up in the table of its own kind)."""
+import z3
+
 from checks import decoder_checks as D
+from pyvc.harness import Session
+from pyvc.values import *  # noqa
+from contracts.decoders import C18_NAMED_PARAMETERS, C18_TABLES
+
+MOD = 'pykdebugparser.trace_handlers.bsd'
+
+
+def table_lemmas(run, tier):
+    spec = __import__('spec.darwin', fromlist=['x'])
+    sess = Session()
+    ns = sess.module(MOD).ns
+    # errno: the dict the decoders render errors from
+    tbl = ns.get('DARWIN_ERRNO')
+    ob = 'C18/table/DARWIN_ERRNO'
+    if not isinstance(tbl, PDict):
+        run.add(ob, 'unsupported', '', 0, MOD, 'no literal DARWIN_ERRNO table')
+        run.undecide(ob, 'the errno table is not a literal dict any more')
+    else:
+        mine = {k: tbl.d[k][1] for k in tbl.keys()}
+        diff = sorted(k for k in set(mine) | set(spec.ERRNO) if mine.get(k) != spec.ERRNO.get(k))
+        if not diff:
+            run.add(ob, 'proved', 'exhaustive table lemma (%d entries)' % len(mine), 0, MOD, kind='lemma')
+        else:
+            k = diff[0]
+            why = 'errno %d is %r in the repository, %r in Darwin\'s sys/errno.h (%d entries differ)' % (k, mine.get(k), spec.ERRNO.get(k), len(diff))
+            run.add(ob, 'refuted', 'exhaustive table lemma', 0, MOD, why, kind='lemma')
+            out = D.native({'kind': 'history_texts', 'names': ['BSC_sys_close']}) if False else None
+            run.violation(ob, {'request': {'kind': 'errno_text_case', 'code': k, 'want': spec.ERRNO.get(k)}, 'solver_output': why},
+                          _replay_errno(k, spec.ERRNO.get(k)), what=why)
+    for cname, tname in C18_TABLES.items():
+        ob = 'C18/table/%s' % cname
+        cls = ns.get(cname)
+        want = getattr(spec, tname)
+        if not isinstance(cls, ClassVal):
+            run.add(ob, 'unsupported', '', 0, MOD, 'no enum %s' % cname)
+            run.undecide(ob, 'the table %s is not an enum class of the module any more' % cname)
+            continue
+        mine = {v: n for n, v in cls.members}
+        # every name the repository declares carries Darwin's number; every number Darwin defines in the spec table is declared
+        diff = sorted(k for k in set(mine) | set(want) if (k in want and mine.get(k) != want[k]) or (k not in want and cname != 'AddressFamily'))
+        if not diff:
+            run.add(ob, 'proved', 'exhaustive table lemma (%d members)' % len(mine), 0, MOD, kind='lemma')
+        else:
+            k = diff[0]
+            why = '%s value %d is %r in the repository, %r in Darwin\'s headers' % (cname, k, mine.get(k), want.get(k))
+            run.add(ob, 'refuted', 'exhaustive table lemma', 0, MOD, why, kind='lemma')
+            run.violation(ob, {'request': None, 'solver_output': why}, False, what=why)
+    run.hashes.update(sess.repo.hashes)
+
+
+def _replay_errno(code, want):
+    from pyvc.report import native
+    out = native({'kind': 'errno_text_case', 'code': code, 'want': want})
+    return bool(out.get('violates'))
+
+
+def named_parameters(run, tier):
+    """schema: the parameter at a named position renders through the enum class of its own kind, keyed by the START word at
+    that position"""
+    from pyvc import decoders, textform
+    sess = Session(policy=decoders.DecoderPolicy())
+    tabs = decoders.handler_tables(sess)
+    for (name, k), cname in sorted(C18_NAMED_PARAMETERS.items()):
+        ob = 'C18/named-parameter/%s.%d' % (name, k)
+        if name not in tabs:
+            continue
+        mod, h = tabs[name][0]
+        fq = 'pykdebugparser.trace_handlers.%s:%s' % (mod, D._hname(h))
+        try:
+            paths = decoders.explore_decoder(sess, name, h)
+        except Unsupported as ex:
+            run.add(ob, 'unsupported', '', 0, fq, str(ex))
+            run.undecide(ob, str(ex))
+            continue
+        bad, seen = None, False
+        for s in paths:
+            if s.outcome != 'return' or s.text is None:
+                continue
+            for conds, toks in D.alternatives(s):
+                slots = textform.split_call(toks) if hasattr(textform, 'split_call') else None
+                enames = [tk for tk in toks if tk[0] == 'ename']
+                hit = [tk for tk in enames if z3.simplify(tk[2]).eq(z3.simplify(z3.Select(s.window.v[k], 0)))]
+                if not hit:
+                    bad = 'parameter %d is not rendered through an enum keyed by START word %d' % (k, k)
+                    continue
+                seen = True
+                for tk in hit:
+                    if tk[1].name != cname:
+                        bad = 'parameter %d is looked up in %s, it is a %s' % (k, tk[1].name, cname)
+        if bad is None and seen:
+            run.add(ob, 'proved', 'symbolic execution: enum class and key of the rendered parameter', 0, fq)
+        else:
+            bad = bad or 'no returning path renders the parameter'
+            run.add(ob, 'refuted', 'symbolic execution', 0, fq, bad)
+            from pyvc.report import native
+            req = {'kind': 'named_parameter_case', 'decoder': name, 'position': k, 'table': C18_TABLES[cname]}
+            out = native(req)
+            run.violation(ob, {'request': req, 'native': out, 'solver_output': bad}, bool(out.get('violates')), what='%s: %s' % (name, out.get('what') or bad))
+    run.hashes.update(sess.repo.hashes)
 
 
 def run_check(run, tier):
     D.standard(run, tier, 'C18')
+    table_lemmas(run, tier)
+    named_parameters(run, tier)
